@@ -1311,13 +1311,14 @@ class Compiler:
         # variables back as they were (and the globals defined so far on
         # top, as after a macro call).
         scope = identifier("__scope", id(node))
+        snapshot = identifier("__globals", id(node))
         body += template(
             "scope = DICT.copy(econtext)", scope=scope, DICT=Builtin("dict")
-        )
+        ) + self._snapshot_globals(snapshot)
         scope_restore = template(
-            "DICT.clear(econtext); econtext.update(scope); "
-            "econtext.update(rcontext)", scope=scope, DICT=Builtin("dict")
-        )
+            "DICT.clear(econtext); econtext.update(scope)",
+            scope=scope, DICT=Builtin("dict")
+        ) + self._merge_changed_globals(snapshot)
 
         # Likewise for the translation settings of elements cut short.
         i18n = identifier("__i18n", id(node))
@@ -1739,13 +1740,18 @@ class Compiler:
         # rendering over it would replace a local definition that
         # shadows an earlier global.
         snapshot = identifier("__globals", id(node))
-        return template("SNAPSHOT = rcontext.copy()", SNAPSHOT=snapshot) + \
-            call + \
-            template(
-                "econtext.update(\n"
-                "    __item for __item in rcontext.items()\n"
-                "    if SNAPSHOT.get(__item[0], __marker) is not __item[1])",
-                SNAPSHOT=snapshot)
+        return self._snapshot_globals(snapshot) + call + \
+            self._merge_changed_globals(snapshot)
+
+    def _snapshot_globals(self, snapshot):
+        return template("SNAPSHOT = rcontext.copy()", SNAPSHOT=snapshot)
+
+    def _merge_changed_globals(self, snapshot):
+        return template(
+            "econtext.update(\n"
+            "    __item for __item in rcontext.items()\n"
+            "    if SNAPSHOT.get(__item[0], __marker) is not __item[1])",
+            SNAPSHOT=snapshot)
 
     def visit_DefineSlot(self, node):
         name = "__slot_%s" % mangle(node.name)
